@@ -706,6 +706,11 @@ class TimeoutHandler(PoolThread):
         ), (None, None))
 
     def on_soft_timeout(self, job):
+        if job.ready():
+            # the result was processed while this scan was under way (the
+            # scan walks a copy of the cache): the worker has moved on and
+            # the signal would hit whatever it is running now.
+            return
         debug('soft time limit exceeded for %r', job)
         process, _index = self._process_by_pid(job._worker_pid)
         if not process:
